@@ -480,6 +480,7 @@ func genCase(t *rapid.T, maxDecls, nreqs int, full bool) Case {
 				req.Multipart = true // a file travels in a multipart body; a request that sends none may be urlencoded (r7)
 			}
 		}
+		req.PreParsed = rapid.IntRange(0, 4).Draw(t, "form-parsed-by-a-middleware-in-front") == 0
 		if req.Multipart && rapid.IntRange(0, 5).Draw(t, "multipart-body-cut") == 0 {
 			req.CutTail = rapid.IntRange(1, 8).Draw(t, "cut-bytes")
 		}
